@@ -297,6 +297,20 @@ impl<H: DnsHandle> DnssecDnsHandle<H> {
             })
             .collect::<Vec<_>>();
 
+        // A NOERROR response that answers the question itself (an RRset of the query name and type
+        // in the answer section) and was not expanded from a wildcard asserts no non-existence:
+        // NSEC/NSEC3 records a server attaches to it all the same (e.g. the NSEC3 matching the query
+        // name) must not be evaluated as a denial of the very RRset that is being returned.
+        if !must_validate_nsec
+            && message.response_code == ResponseCode::NoError
+            && message
+                .answers
+                .iter()
+                .any(|rr| rr.name == query.name && rr.record_type() == query.query_type)
+        {
+            return Ok(message);
+        }
+
         // Both NSEC and NSEC3 records cannot coexist during
         // transition periods, as per RFC 5515 10.4.3 and
         // 10.5.2
